@@ -197,6 +197,7 @@ func (fr *Frame) instr(in ssa.Instruction, h Heap) Heap {
 		arr := g.heapArr(nh, name, srt)
 		nh[name] = g.define(name, srt, fmt.Sprintf("(store %s %s %s)", arr, r, g.constArray("(Array "+g.IS()+" "+g.sortOf(el)+")", g.zero(el))))
 		fr.vals[x] = &Val{T: g.define(fr.prefix+x.Name(), "Slice", fmt.Sprintf("(mk_slice %s %s %s %s)", r, g.ilit(0), ln, cp))}
+		fr.heapOutCur = nh
 		fr.allocEvent(x, ln, el)
 		return nh
 	case *ssa.MakeMap:
@@ -318,7 +319,31 @@ func (fr *Frame) instr(in ssa.Instruction, h Heap) Heap {
 	panic(genErr(fmt.Sprintf("unsupported instruction %T: %s", in, in)))
 }
 
-func (fr *Frame) allocEvent(x ssa.Instruction, n string, el types.Type) {}
+// allocEvent: "at make assert" clauses of the unit's contract, checked at every make([]T, n, c)
+func (fr *Frame) allocEvent(x ssa.Instruction, n string, el types.Type) {
+	if !fr.top || fr.fc == nil || len(fr.fc.AtMake) == 0 {
+		return
+	}
+	ms, ok := x.(*ssa.MakeSlice)
+	if !ok {
+		return
+	}
+	h := fr.heapOutCur
+	env := fr.newSpecEnv(h, fr.entry)
+	fr.bindParams(env)
+	env.locals = func(name string) *SVal { return fr.localBefore(name, x, h) }
+	intT := types.Typ[types.Int]
+	env.vars["n"] = &SVal{V: &Val{T: n}, T: intT}
+	env.vars["c"] = &SVal{V: &Val{T: fr.to64(fr.val(ms.Cap).T, ms.Cap.Type())}, T: intT}
+	for i, cl := range fr.fc.AtMake {
+		env.where = fmt.Sprintf("%s:%d", cl.File, cl.Line)
+		label := cl.Label
+		if label == "" {
+			label = fmt.Sprintf("make%d", i+1)
+		}
+		fr.oblig("callsite", "", "at.make."+label, env.boolTerm(cl.Expr), cl.Src, x.Pos())
+	}
+}
 
 func (fr *Frame) unop(x *ssa.UnOp, h Heap) Heap {
 	g := fr.g
